@@ -157,7 +157,8 @@ ADDENDA = {
  'C08': ('The sample-discard loop of a sample-accurate seek makes progress: the remaining distance is at least one output '
          'sample whenever its body runs, at full and at half rate (R08.8); page properties kept in flags are recomputed for '
          'every page submitted (R08.9); a page seek that reports success has selected a stream, from every consistent entry '
-         'state (R08.10, K5).', ' + K4 progress obligation on the discard loop'),
+         'state (R08.10, K5); a time is multiplied by a link\'s rate only after the earlier links\' durations were subtracted (R08.11); '
+         'the error exit of the sample seeks returns a negative code in every state (R08.12).', ' + K4 progress obligation on the discard loop'),
  'C09': ('Block-overlap sums skip the first packet at every site (R09.6) and the downward search over the links ends on a link '
          'wherever its variable subscripts a per-link table (R09.7: K4, with the lemma that the remaining total is 0 at link 0).'
          ' A link\'s serial number and data offset in the per-link tables derive from reads of the stream state whose last '
@@ -182,7 +183,7 @@ ADDENDA = {
          'range at the store or clamped before the return (R15.6, NaN cases listed as assumptions); a refused control request '
          'has stored nothing (R15.7); requests on an existing set-up tolerate a cleared info (R15.8); a NaN does not survive a '
          'request whose value becomes an integer bound (R15.6 nan-rejected); no alloca on the analysis path is sized by the '
-         'amount of audio submitted (R15.9).', ' + K4 interval analysis (integer and floating) of set-up code'),
+         'amount of audio submitted (R15.9); the staging calls refuse an info whose set-up was completed (R15.10).', ' + K4 interval analysis (integer and floating) of set-up code'),
  'C16': ('Comment strings are allocated length+1 and filled exactly (R16.2); vorbis_comment_add grows both arrays alike and '
          'keeps the terminator inside the allocation (R16.5).', ''),
  'C17': ('The channel count used for interleaving is the decoded link\'s and is not stale across the packet fetch (R17.5, R17.6); '
@@ -193,7 +194,8 @@ ADDENDA = {
  'C19': ('The packet fetch reports end-of-file to the lap helpers only at a link boundary (R19.5) and vorbis_synthesis_lapout '
          'can be called again on the state it left: every window move is guarded by a test the function falsifies (R19.6); '
          'its relocations end at the block centre and the window fields move with the data (R19.7, linear identities); rows of a '
-         'decoder view are read from their first sample, never at an offset (R19.8).',
+         'decoder view are read from their first sample, never at an offset (R19.8); in ov_crosslap every computed value depends on '
+         'one handle only until the splice (R19.9).',
          ' + K4/K2 idempotence rule for lapout + linear identities over block-size locals'),
  'C20': ('Units of measure are checked in the block layer as well (R20.6: stream vs output samples meet only through the '
          'half-rate shift, the flag is never added to a sample count); the half-rate request is carried over when the info '
